@@ -14,7 +14,9 @@ import (
 
 var intLits = []int64{0, 1, 2, 3, 5, 10, 100, 1000, 1 << 53, 1<<53 + 1, math.MaxInt64, -1, -7, math.MinInt64}
 var floatLits = []float64{0, 1, 0.5, 1.5, 2, 3.14, 100, 1e10, 9.223372036854775807e18, 1e308, 5e-324, -1, -0.5, -2.5}
-var strLits = []string{"", "a", "abc", "hello world", "1", "0", "1.5", "true", "T", "-7", "1s", "10ms", "2h", "1h30m", "héllo", "日本語", " pad ", "aXbXc", "NaN", "abcabc", "ABC", "x"}
+var strLits = []string{"", "a", "abc", "hello world", "1", "0", "1.5", "true", "T", "-7", "1s", "10ms", "2h", "1h30m", "héllo", "日本語", " pad ", "aXbXc", "NaN", "abcabc", "ABC", "x",
+	// numerals that are decimal only by convention: leading zeros, base prefixes, digit separators, signs, exponents
+	"010", "-0012", "+7", "08", "0x10", "0b11", "0o17", "1_000", "1e3", "1E2", ".5", "5.", "0x1p-2", "Inf", "+Inf", "infinity", " 1", "1 ", "١٢"}
 var durLits = []int64{0, 1, 1e3, 1e6, 1e9, 60e9, 3600e9, 24 * 3600e9, 7 * 24 * 3600e9, 90 * 60e9, 1500e6, -1e9, -1e6, 7}
 var reLits = []string{"a", "^a", "b+", "^$", ".*", "[0-9]+", "(a)(b)?", "é", "^h.llo", "\\s+", "c$", "X"}
 
@@ -582,7 +584,8 @@ func biasVals(class, name string, k VT) []SV {
 		return []SV{{T: "dur"}, {T: "dur"}, {T: "dur", I: 1}, {T: "dur", I: 2}, {T: "dur", I: 1e9}}
 	case name == "s" && k == tString:
 		return []SV{{T: "string", S: "1"}, {T: "string", S: "0"}, {T: "string", S: "2"}, {T: "string", S: "3"}, {T: "string", S: "-7"}, {T: "string", S: "1.5"},
-			{T: "string", S: "1s"}, {T: "string", S: "10ms"}, {T: "string", S: "abc"}, {T: "string", S: ""}}
+			{T: "string", S: "1s"}, {T: "string", S: "10ms"}, {T: "string", S: "abc"}, {T: "string", S: ""},
+			{T: "string", S: "010"}, {T: "string", S: "0x10"}, {T: "string", S: "1_000"}, {T: "string", S: "1e3"}, {T: "string", S: "+7"}, {T: "string", S: "08"}}
 	}
 	return nil
 }
